@@ -25,7 +25,9 @@ func answer(w *world.W, spec RS) {
 				return nil, err
 			}
 		}
-		return o.Respond(c, spec), nil
+		sp := spec
+		sp.Delay = 0 // already waited for (Respond would wait again)
+		return o.Respond(c, sp), nil
 	}
 }
 
@@ -93,7 +95,7 @@ func errNotExist() error { return driver.ErrNotExist }
 // hop-by-hop for itself (Connection) and carries spellings a later response does not. Nothing of it may carry over
 // to other responses: whatever an implementation derives from one message belongs to that message.
 func primeUnrelated(x *mc.X, w *world.W) {
-	answer(w, RS{Status: 200, H: H("Cache-Control", "max-age=100", "Connection", "X-M, X-New, Age, Set-Cookie, X-Merged, Link", "X-M", "primer", "Vary", "X-Primer")})
+	answer(w, RS{Status: 200, H: H("Cache-Control", "max-age=100", "Connection", "X-M, X-New, Age, Set-Cookie, X-Merged, Link, Cache-Control, Expires", "X-M", "primer", "Vary", "X-Primer")})
 	o := get(w, "http://example.com/unrelated-primer")
-	logObs(x, "GET of an unrelated resource (its response nominates X-M, X-New, Age, Set-Cookie, X-Merged, Link in Connection)", o)
+	logObs(x, "GET of an unrelated resource (its response nominates X-M, X-New, Age, Set-Cookie, X-Merged, Link, Cache-Control, Expires in Connection)", o)
 }
